@@ -371,6 +371,35 @@ def boundary_sweep_programs(boundaries, mnemonics=REL):
                     yield ('fwd-data', b, mn, delta, mis), [('pad', mis), ('ref', mn, 'T'), ('pad', max(0, k - 6)), ('data', 1234), ('pad', 2), ('label', 'T'), ('opr', 'ADD')]
 
 
+def growth_chain_programs(lengths, mnemonics=('BR', 'BRZ', 'LDAP')):
+    """Deterministic family: a chain of n references in which reference i crosses an encoding-length boundary only once its
+    neighbour has grown by a byte, so that a layout loop needs about n passes (one link settles per pass).
+    Forward (boundary B, current length c):  R0 pad(g) R1 T0: pad(g) R2 T1: ... R(n-1) T(n-2): pad(B) T(n-1):   with g = B-1-c,
+    so the distance of Ri is g + len(R(i+1)) = B-1 until R(i+1) grows.  Backward (negative operands take at least two bytes, B = 256):
+    T(n-1): pad(255) T(n-2): R(n-1) pad(252) T(n-3): R(n-2) ... T0: R1 pad(252) R0, magnitude of Ri = len(R(i+1)) + 252 + len(Ri)."""
+    for n in lengths:
+        for mn in mnemonics:
+            for B, c in ((16, 1), (256, 2)):
+                g = B - 1 - c
+                items = [('pad', 3)]
+                for i in range(n):
+                    items.append(('ref', mn, 'T%d' % i))
+                    if i > 0:
+                        items.append(('label', 'T%d' % (i - 1)))
+                    items.append(('pad', g if i < n - 1 else B))
+                items += [('label', 'T%d' % (n - 1)), ('opr', 'ADD')]
+                yield ('chain-fwd', n, mn, B), items
+            items = [('pad', 1), ('label', 'T%d' % (n - 1)), ('pad', 255)]
+            for i in range(n - 1, -1, -1):
+                if i > 0:
+                    items.append(('label', 'T%d' % (i - 1)))
+                items.append(('ref', mn, 'T%d' % i))
+                if i > 0:
+                    items.append(('pad', 252))
+            items.append(('opr', 'SUB'))
+            yield ('chain-bwd', n, mn, 256), items
+
+
 def gen_tour(r, nblocks=None, funcproc=False, huge=0.0):
     """Executable tour: n labelled blocks in shuffled source order; block i writes byte id_i to stream 0 and
     transfers control to the next block of a random permutation (BR / BRZ with areg=0 / BRN with areg=-1 /
